@@ -49,6 +49,8 @@ def check(run: Run) -> None:
             order = "little" if endian == "<" else "big"
             limit = min(1 << (8 * psz), 1 << 16)
             addrs = [rng.choice([0, rng.randrange(1, min(40, limit)), rng.randrange(1, min(40, limit)), min(limit - 1, 47), min(limit - 1, 200)]) for _ in range(3)]
+            if trial == 0 and size < limit:
+                addrs[rng.randrange(3)] = size          # "the data directly follows the header": the stream already sits at the target
             body[offs["p"]:offs["p"] + psz] = addrs[0].to_bytes(psz, order)
             body[offs["q"]:offs["q"] + psz] = addrs[1].to_bytes(psz, order)
             body[offs["q"] + psz:offs["q"] + 2 * psz] = addrs[2].to_bytes(psz, order)
@@ -127,6 +129,23 @@ def check(run: Run) -> None:
         except Exception as e:  # noqa: BLE001
             failures += 1
             run.report("C16/null", {**c.describe(), "ops": [{"op": "dereference of a default pointer", "observed": type(e).__name__, "expected": "NullPointerDereference"}]})
+
+    # the pointer width follows the configuration that is current when a definition is loaded
+    for pw1, pw2 in [("uint64", "uint16"), ("uint16", "uint32"), ("uint32", "uint8"), ("uint8", "uint64")]:
+        for compiled in (False, True):
+            c = Case(PRELUDE + "struct first { uint8 k; uint32 *p; T *t; };", pointer=pw1, compiled=compiled,
+                     history=[("set_pointer", pw2), ("load", "struct main { uint8 k; uint32 *p; T *t; uint16 z; };")])
+            data = F.random_data(rng, 40)
+            c.ops = [("layout",), ("parse", data, 0), ("dump", data, 0)]
+            its = build_items(c)
+            items += its
+            n_oracle += 1
+            T2 = c._T
+            want = 1 + 2 * WIDTHS[pw2] + 2
+            if T2.size != want or T2.__fields__[1].type.size != WIDTHS[pw2]:
+                failures += 1
+                run.report("C16/width-after-reconfiguration", {**c.describe(), "ops": [{"op": "load after cs.pointer = " + pw2, "observed": f"len(main) = {T2.size}, pointer field size {T2.__fields__[1].type.size}",
+                           "expected": f"len(main) = {want}, pointer field size {WIDTHS[pw2]}"}]})
 
     res, errs = run_shards("C16d", ["Definition checks : list bool := [\n" + ";\n".join("  " + x for x in deref_checks[i:i + 150]) + "\n]." for i in range(0, len(deref_checks), 150)], "Model.Pointer")
     for e in errs:
